@@ -17,7 +17,7 @@ func init() {
 		Level: "other",
 		Explanation: "Decided (structural necessary conditions of 'exclusion only deletes repeated marginal text'): (R11.1) FilterFragments is a pure subsequence filter: it returns its input or appends unmodified elements of it in one forward pass; (R11.2) a fragment is deleted only on paths that crossed the page-membership test, the margin-band test and (character-level or text match); (R11.3) in the root package every header/footer detection runs on the result of collectAllPages and every filtering call is applied to that detection's result under the exclude options; (R11.4) detection candidates are taken only from the margin band and keep their trimmed text; (R11.5) the occurrence threshold counts distinct pages; (R11.6) the filter compares trimmed texts on both sides, like detection does. " +
 			"Not decided: which text actually repeats in a given document, thresholds and tolerances, DOCX/ODT/PPTX part-based exclusion.",
-		Rules: []func(*eng.Ctx){rulePureFilter, ruleDeleteGuard, ruleDetectAllPages, ruleCandidates, ruleDistinctPages, ruleTextsMatch, ruleMatchIsEquality, roleRule("R11.R", "layout", "docx", "odt", "pptx"), ruleFilterPageIndex},
+		Rules: []func(*eng.Ctx){rulePureFilter, ruleDeleteGuard, ruleDetectAllPages, ruleCandidates, ruleDistinctPages, ruleTextsMatch, ruleMatchIsEquality, roleRule("R11.R", "layout", "docx", "odt", "pptx"), ruleFilterPageIndex, ruleInputReadonly},
 	})
 }
 
@@ -306,6 +306,36 @@ func ruleDetectAllPages(c *eng.Ctx) {
 			}
 			c.Check(fromCollect, R, key+"/all-pages", ci.Pos(), "detection runs on collectAllPages()", "header/footer detection is fed something other than all pages of the document (a page subset cannot show repetition)")
 			c.Check(eng.GuardedBy(fn, ci.Block(), optFact), R, key+"/option", ci.Pos(), "only under excludeHeaders||excludeFooters", "detection (and therefore filtering) can run although no exclusion was requested")
+			// whether detection runs must not depend on WHICH pages were selected: a page is filtered the
+			// same way in every selection that contains it (an empty selection aside)
+			selDep := eng.GuardedBy(fn, ci.Block(), func(f eng.Fact) bool {
+				dep := false
+				for v := range eng.Slice(f.Cond, func(call *ssa.Call) bool { _, isB := call.Call.Value.(*ssa.Builtin); return isB }) {
+					if ex, ok := v.(*ssa.Extract); ok && ex.Index == 0 {
+						if call, ok := ex.Tuple.(*ssa.Call); ok && strings.HasSuffix(eng.CalleeName(call), ".resolvePages") {
+							dep = true
+						}
+					}
+					if fr, ok := eng.AsField(v); ok && fr.Field == "pages" && strings.HasSuffix(fr.Struct, "xtractOptions") {
+						dep = true
+					}
+				}
+				if !dep {
+					return false
+				}
+				if _, x, y, ok := f.Cmp(); ok {
+					if k, isC := eng.ConstInt(y); isC && k == 0 {
+						return false // nothing selected at all
+					}
+					for _, side := range []ssa.Value{x, y} {
+						if _, isInd := eng.Induction(side); isInd {
+							return false // the bound of a loop over the selection
+						}
+					}
+				}
+				return true
+			})
+			c.Check(!selDep, R, key+"/selection-independent", ci.Pos(), "not conditioned on the page selection", "whether header/footer detection runs depends on the page selection: the same page is filtered in one selection and not in another")
 		}
 		for _, ci := range eng.CallsNamed(fn, false, "layout.(*HeaderFooterResult).FilterFragments") {
 			key := eng.FuncName(fn) + "#FilterFragments"
@@ -333,6 +363,28 @@ func ruleDetectAllPages(c *eng.Ctx) {
 		}
 	})
 	c.Check(okAll, R, "tabula.(*Extractor).collectAllPages#range", collect.Pos(), "iterates 0..PageCount", "collectAllPages does not iterate over every page index below PageCount()")
+	// a page that cannot be read is skipped: its error never becomes the error of the collection (the callers
+	// run detection only when err == nil, so one damaged page would switch the exclusion off for all pages)
+	fatal := token.NoPos
+	for _, r := range eng.Returns(collect) {
+		rv := eng.ReturnValues(r)
+		if len(rv) == 0 {
+			continue
+		}
+		ev := rv[len(rv)-1]
+		if !eng.IsErrorType(ev.Type()) || eng.IsNilConst(ev) {
+			continue
+		}
+		for v := range eng.Slice(ev, func(*ssa.Call) bool { return true }) {
+			if call, ok := v.(*ssa.Call); ok && eng.InLoop(call.Block()) {
+				if eng.IsErrorType(call.Type()) {
+					continue // the wrapping call itself (fmt.Errorf)
+				}
+				fatal = r.Pos()
+			}
+		}
+	}
+	c.Check(fatal == token.NoPos, R, "tabula.(*Extractor).collectAllPages#skip-unreadable", collect.Pos(), "per-page failures are skipped", "the failure of one page is returned as the failure of the whole collection: every caller then skips detection, and headers/footers stay on all pages")
 }
 
 func ruleCandidates(c *eng.Ctx) {
